@@ -22,6 +22,10 @@ cancel while a child's result is in flight, stop between a task completion and i
                   ends CANCELLED.  C10 - after an acknowledged pause the workflow and every sub-workflow below it that
                   was not finished is PAUSED.
 
+30% of the nested cases put policies on the calling tasks (wait-after, also through task-defaults; wait-before; retry count 1):
+ORACLE ONLY, no model comparison (DELAYED task states and retries are outside Model/StopTree.v); the run is drained with the
+virtual clock advancing, so a parent task left DELAYED for ever shows as cancel:parent-task-not-CANCELLED:*.
+
 corpus/stoptree/*.json: minimal histories of the findings of this part (A fixed by repo commit 404dec69; B, C by 85c5b051; D =
 scenario of a seeded change), all must replay clean; they run first in every check.
 
@@ -68,6 +72,12 @@ def gen_case(rng, i=0):
             c.append(rng.choice(['plain', 'items']))
         calls.append(c)
     side = [rng.random() < 0.4 for _ in range(depth + 1)]
+    # 30% of the nested cases: policies on the calling (sub-workflow) tasks - wait-after (on the task or through task-defaults),
+    # wait-before, retry.  These cases are ORACLE ONLY (the DELAYED task state is outside Model/StopTree.v)
+    policies = None
+    if depth >= 1 and rng.random() < 0.3:
+        policies = {'defaults': rng.random() < 0.3,
+                    'tasks': [[rng.choice(['wait-after', 'wait-after', 'wait-before', 'retry', None]) for _ in c] for c in calls]}
     r = rng.random()
     msgs = ['m1', 'm2', 'm3', 'm4']
     sel = lambda: {'depth': rng.choice([0, 0, 1, 1, 2, 3]), 'pick': rng.randrange(8)}   # noqa
@@ -109,15 +119,22 @@ def gen_case(rng, i=0):
             o['k'] = rng.randrange(8, 40)      # late enough for the sub-workflows of the items to exist
         if o['op'] == 'stop':
             o['msg'] = msgs[j]
-    return {'depth': depth, 'calls': calls, 'side': side, 'ops': ops, 'seed': rng.randrange(1 << 30),
+    case = {'depth': depth, 'calls': calls, 'side': side, 'ops': ops, 'seed': rng.randrange(1 << 30),
             'sched': 'default' if rng.random() < 0.25 else 'legacy'}
+    if policies:
+        case['policies'] = policies
+    return case
 
 
 def build(case):
     depth = case['depth']
     y = ["version: '2.0'"]
+    pol = case.get('policies')
     for lv in range(depth + 1):
-        y += ['%s:' % LEVELS[lv], '  output:', '    o%d: <%% $.get(r%d, null) %%>' % (lv, lv), '    s%d: <%% $.get(sv%d, null) %%>' % (lv, lv), '  tasks:']
+        y += ['%s:' % LEVELS[lv]]
+        if pol and pol['defaults'] and lv < depth:
+            y += ['  task-defaults:', '    wait-after: 1']
+        y += ['  output:', '    o%d: <%% $.get(r%d, null) %%>' % (lv, lv), '    s%d: <%% $.get(sv%d, null) %%>' % (lv, lv), '  tasks:']
         if case['side'][lv]:
             y += ['    side%d:' % lv, '      action: verif.act tag="side%d" sync=false' % lv, '      publish:', '        sv%d: <%% task().result %%>' % lv]
         if lv < depth:
@@ -128,6 +145,13 @@ def build(case):
                     y += ['      with-items: kk in [0, 1]', '      workflow: %s' % LEVELS[lv + 1]]
                 else:
                     y += ['      workflow: %s' % LEVELS[lv + 1]]
+                pk = pol['tasks'][lv][ci] if pol else None
+                if pk == 'wait-after' and not pol['defaults']:
+                    y += ['      wait-after: 1']
+                elif pk == 'wait-before':
+                    y += ['      wait-before: 1']
+                elif pk == 'retry':
+                    y += ['      retry:', '        count: 1', '        delay: 1']
                 if ci == 0:
                     y += ['      publish:', '        r%d: <%% task().result %%>' % lv, '      on-success: [after%d]' % lv]
             y += ['    after%d:' % lv, '      action: verif.act tag="after%d" value=%d' % (lv, 30 + lv)]
@@ -359,7 +383,7 @@ class Run:
 
     def start_event(self, before, after, task_id, out):
         """the start_workflow request of a sub-workflow task is processed: compare the new execution with start_child_at"""
-        if task_id not in before['task'] or out != 'ok':
+        if task_id not in before['task'] or out != 'ok' or self.case.get('policies'):
             return
         new = [w for w, r in after['wf'].items() if r['ptask'] == task_id and w not in before['wf']]
         if not new:
@@ -569,6 +593,8 @@ class Run:
         return (t if show else '(%s)' % t), addr
 
     def model_event(self, kind, before, after, w, out, label):
+        if self.case.get('policies'):
+            return      # oracle only: policies (DELAYED tasks, retries) are outside the tree model
         term, addr = self.coq_tree(before, before)
         if w not in addr:
             return
@@ -709,7 +735,11 @@ CORPUS = [
 
 
 def corpus_files():
-    """corpus/stoptree/*.json: minimal histories of findings; `expect` = the only oracle signatures they may show"""
+    """30% of the nested cases put policies on the calling tasks (wait-after, also through task-defaults; wait-before; retry count 1):
+ORACLE ONLY, no model comparison (DELAYED task states and retries are outside Model/StopTree.v); the run is drained with the
+virtual clock advancing, so a parent task left DELAYED for ever shows as cancel:parent-task-not-CANCELLED:*.
+
+corpus/stoptree/*.json: minimal histories of findings; `expect` = the only oracle signatures they may show"""
     import glob
     import os
     out = []
